@@ -22,6 +22,9 @@ func extra(args []string) bool {
 	case "serve":
 		serve()
 		return true
+	case "fn-json":
+		fnJSON(argU(args, 1, 1), int(argU(args, 2, 2000)), len(args) > 3 && args[3] == "all")
+		return true
 	case "fn-storage":
 		fnStorage(argU(args, 1, 1), int(argU(args, 2, 500)))
 		return true
@@ -158,5 +161,91 @@ func fnStorage(seed uint64, n int) {
 		ans["read_after"] = readAnswer(path)
 		req := J{"op": "storage", "tag": i, "file": hex.EncodeToString(file), "classes": classes, "limit": 10 * 1024 * 1024, "append": enc}
 		emit(J{"req": req, "go": ans})
+	}
+}
+
+func cps(s string) []int {
+	out := []int{}
+	for _, r := range s {
+		out = append(out, int(r))
+	}
+	return out
+}
+
+func marshalNoHTML(s string) string {
+	var buf bytes.Buffer
+	enc := json.NewEncoder(&buf)
+	enc.SetEscapeHTML(false)
+	enc.Encode(s)
+	return strings.TrimSuffix(buf.String(), "\n")
+}
+
+func jsonCase(tag int, s string, lit string) {
+	m, _ := json.Marshal(s)
+	var dec string
+	var decAns any
+	if err := json.Unmarshal([]byte(lit), &dec); err != nil {
+		decAns = nil
+	} else {
+		decAns = cps(dec)
+	}
+	req := J{"op": "json", "tag": tag, "s": cps(s), "lit": cps(lit)}
+	emit(J{"req": req, "go": J{"enc_html": cps(string(m)), "enc_raw": cps(marshalNoHTML(s)), "dec": decAns,
+		"trim": cps(strings.TrimSpace(s)), "blank": strings.TrimSpace(s) == ""}})
+}
+
+var jsonAlphabet = []rune{'a', 'Z', '0', ' ', '"', '\\', '/', '<', '>', '&', '\n', '\r', '\t', '\b', '\f', 0, 1, 0x1f, 0x7f, 0x80, 0x85, 0xa0, 0xe9,
+	0x300, 0x301, 0x1680, 0x2000, 0x200a, 0x200b, 0x2028, 0x2029, 0x202f, 0x205f, 0x3000, 0xfeff, 0xfffd, 0xffff, 0xd7ff, 0xe000, 0x10000, 0x1f600, 0x10ffff, 0x65e5, '\v'}
+
+func fnJSON(seed uint64, n int, all bool) {
+	r := &rng{s: seed}
+	tag := 0
+	if all {
+		for c := 0; c <= 0x10ffff; c++ {
+			if c >= 0xd800 && c <= 0xdfff {
+				continue
+			}
+			s := string(rune(c))
+			m, _ := json.Marshal(s)
+			jsonCase(tag, s, string(m))
+			tag++
+		}
+		return
+	}
+	for i := 0; i < n; i++ {
+		k := r.n(12)
+		if r.p(3) {
+			k = 2000 + r.n(3000)
+		}
+		rs := make([]rune, k)
+		for j := range rs {
+			if r.p(70) {
+				rs[j] = pick(r, jsonAlphabet)
+			} else {
+				c := rune(r.n(0x110000))
+				if c >= 0xd800 && c <= 0xdfff {
+					c = 0x41
+				}
+				rs[j] = c
+			}
+		}
+		s := string(rs)
+		// a literal to decode: mostly the real encoding with some escapes rewritten, sometimes damaged
+		m, _ := json.Marshal(s)
+		lit := string(m)
+		switch c := r.n(100); {
+		case c < 25:
+			lit = marshalNoHTML(s)
+		case c < 45:
+			lit = strings.NewReplacer("a", "\\u0061", "/", "\\/", "Z", "\\u005A", "\U0001F600", "\\ud83d\\ude00").Replace(lit)
+		case c < 55:
+			lit = "\"" + pick(r, []string{"\\ud800", "\\udc00x", "\\ud83dZ", "\\ud83d\\u0041", "\\uD83D\\uDE00", "\\x41", "\\u12", "\\", "a\"b", "tab\there", "\\u00zz", "\\ud83d\\ud83d\\ude00"}) + "\""
+		case c < 60 && len(lit) > 2:
+			lit = lit[:len(lit)-1]
+		case c < 63:
+			lit = lit[1:]
+		}
+		jsonCase(tag, s, lit)
+		tag++
 	}
 }
